@@ -14,7 +14,7 @@ import (
 func init() { register("C20", true, runC20) }
 
 func runC20(c *Check) {
-	c.Explanation = "Decides the lock-discipline clauses of C20 for every interleaving: each piece of state shared between goroutines is only accessed with its guard held — currentCfg under currentMu, tempFiles under tempFilesMu, Binutils.rep under Binutils.mu, the addr2line / llvm-symbolizer pipes under their mutexes (helpers that touch the pipe are only called with the lock held), the encode scratch fields of a profile only from preEncode/encode under encodeMu or on objects freshly allocated by the decoder, once-initialised fields only inside their sync.Once (R1); every package-level variable written outside init is in that table or a listed test tap / start-up flag (R2); temporary files are created with O_CREATE|O_EXCL or os.CreateTemp, and the only plain os.Create is the user-named output file (R3); a published binrep is never written: stores to its fields only hit objects allocated in the same get/update cycle (R4); the fetch goroutines obey the barrier and slot rules (R5, shared with C16). Also: the option store is replaced wholesale (locked getter … locked setter) only at start-up, never from the interactive loop or a web handler (R4). Not decided: deadlock freedom beyond the absence of nested acquisitions, torn output of external tools, races inside plug-ins."
+	c.Explanation = "Decides the lock-discipline clauses of C20 for every interleaving: each piece of state shared between goroutines is only accessed with its guard held — currentCfg under currentMu, tempFiles under tempFilesMu, Binutils.rep under Binutils.mu, the addr2line / llvm-symbolizer pipes under their mutexes (helpers that touch the pipe are only called with the lock held), the encode scratch fields of a profile only from preEncode/encode under encodeMu or on objects freshly allocated by the decoder, once-initialised fields only inside their sync.Once (R1); every package-level variable written outside init is in that table or a listed test tap / start-up flag (R2); temporary files are created with O_CREATE|O_EXCL or os.CreateTemp, and the only plain os.Create is the user-named output file (R3); a published binrep is never written: stores to its fields only hit objects allocated in the same get/update cycle (R4); the fetch goroutines obey the barrier and slot rules (R5, shared with C16). Also: the option store is replaced wholesale (locked getter … locked setter) only at start-up, never from the interactive loop or a web handler (R4). Round-I additions: computeBase runs under a single sync.Once object; no function returns memory of an object it puts back into a sync.Pool; a slice read from a guarded package variable is used after the unlock only if the variable was given unrelated contents inside the critical section. Not decided: deadlock freedom beyond the absence of nested acquisitions, torn output of external tools, races inside plug-ins."
 	c.guardedGlobals()
 	c.guardedFields()
 	c.scratchFields()
